@@ -167,10 +167,31 @@ func (d *ioDelegate) Close() error {
 	defer d.outfile.Close()
 
 	if d.cache != nil {
-		if err := d.cache.Close(); err != nil {
-			os.Remove(d.cache.Name())
-		}
+		// Finalising is left to commitCaches: whether the entry may be kept
+		// is only known once the command has returned.
+		pendingCaches = append(pendingCaches, d.cache)
+		d.cache = nil
 	}
 
 	return nil
+}
+
+// pendingCaches holds the cache entries written during this run.
+var pendingCaches []*cache.File
+
+// commitCaches finalises the cache entries written during this run if the
+// command succeeded and removes them otherwise, so that a failed run never
+// leaves an entry that a later identical run would be served from.
+func commitCaches(ok bool) {
+	for _, f := range pendingCaches {
+		if !ok {
+			// Unlink before closing: closing writes a valid header, and the
+			// entry of a failed run must never be valid under its name.
+			os.Remove(f.Name())
+		}
+		if err := f.Close(); err != nil && ok {
+			os.Remove(f.Name())
+		}
+	}
+	pendingCaches = nil
 }
